@@ -56,37 +56,50 @@ func (r *DHCP) refreshLocked() {
 	}
 }
 
+// refresh reloads the table when it has expired. It takes the write lock for
+// that, so it must be called without r.mu held.
+func (r *DHCP) refresh() {
+	r.mu.RLock()
+	expired := !time.Now().Before(r.expires)
+	r.mu.RUnlock()
+	if expired {
+		r.mu.Lock()
+		r.refreshLocked()
+		r.mu.Unlock()
+	}
+}
+
 func (r *DHCP) Name() string {
 	return "dhcp"
 }
 
 func (r *DHCP) Visit(f func(name string, addrs []string)) {
+	r.refresh()
 	r.mu.RLock()
 	defer r.mu.RUnlock()
-	r.refreshLocked()
 	for name, addrs := range r.names {
 		f(name, addrs)
 	}
 }
 
 func (r *DHCP) LookupMAC(mac string) []string {
+	r.refresh()
 	r.mu.RLock()
 	defer r.mu.RUnlock()
-	r.refreshLocked()
 	return r.macs[mac]
 }
 
 func (r *DHCP) LookupAddr(addr string) []string {
+	r.refresh()
 	r.mu.RLock()
 	defer r.mu.RUnlock()
-	r.refreshLocked()
 	return r.addrs[addr]
 }
 
 func (r *DHCP) LookupHost(name string) []string {
+	r.refresh()
 	r.mu.RLock()
 	defer r.mu.RUnlock()
-	r.refreshLocked()
 	return r.names[prepareHostLookup(name)]
 }
 
